@@ -27,7 +27,7 @@ import (
 const repo = "/repo"
 
 func main() {
-	conf := flag.String("conf", "", "")
+	conf := flag.String("conf", "", "comma-separated conf files")
 	out := flag.String("out", "", "")
 	flag.Parse()
 	os.RemoveAll(*out)
@@ -35,15 +35,25 @@ func main() {
 		panic(err)
 	}
 	outAbs, _ := filepath.Abs(*out)
-	f, err := os.Open(*conf)
-	if err != nil {
-		panic(err)
-	}
 	rewrites := map[string]map[string]string{}
 	adds := map[string][]string{}
-	sc := bufio.NewScanner(f)
-	for sc.Scan() {
-		fs := strings.Fields(sc.Text())
+	var lines []string
+	for _, c := range strings.Split(*conf, ",") {
+		if c == "" {
+			continue
+		}
+		f, err := os.Open(c)
+		if err != nil {
+			panic(err)
+		}
+		sc := bufio.NewScanner(f)
+		for sc.Scan() {
+			lines = append(lines, sc.Text())
+		}
+		f.Close()
+	}
+	for _, line := range lines {
+		fs := strings.Fields(line)
 		if len(fs) == 0 || strings.HasPrefix(fs[0], "#") {
 			continue
 		}
@@ -56,7 +66,7 @@ func main() {
 		case "add":
 			adds[fs[1]] = append(adds[fs[1]], fs[2])
 		default:
-			panic("bad conf line: " + sc.Text())
+			panic("bad conf line: " + line)
 		}
 	}
 	replace := map[string]string{}
